@@ -1,5 +1,5 @@
 """Which obligations decide which property, with which assertions."""
-from . import steps, sweep, kernels, product, dbfiles, alloc_kernel
+from . import steps, sweep, kernels, product, dbfiles, alloc_kernel, crash
 
 OPS = ["step.bind", "step.list", "step.allocate", "step.claim", "step.release", "step.open", "step.add",
        "step.close", "step.disconnect"]
@@ -229,3 +229,19 @@ PROPS["C04"] = P(
                                "translator validated on 40 (thorough: 200) concrete in-use sets against the real function"])
 PROPS["C04"]["technique"] = ("AST if-conversion of the allocator into one SMT query per post-condition (z3), plus symbolic "
                              "execution of the real allocate handler; counterexamples replayed on the real function")
+
+
+PROPS["C10"] = P(
+    "(1) every committed snapshot inside every operation (the states a kill -9 can leave) has no foreign-key "
+    "violation and no duplicate nameplate / mailbox / side record (C10.crash_inv, all operations, with and "
+    "without usage store); (2) from every crash-shaped pre-state (INV without the between-commit clauses: a "
+    "mailbox may lack side rows, a claim row may lack its mailbox side row, no open / claimed side required) "
+    "the restarted server's expire() raises and logs nothing and deletes everything old, with and without "
+    "usage store; (3) for every committed snapshot of claim / release / open / close the same command re-sent "
+    "on a fresh connection at the same instant gets the same answer and the same final store as the "
+    "uncrashed run",
+    lambda tier: all_ops(tier, ["C10."]) + all_ops(tier, ["C10."], usage="plain", sweep_too=False,
+                                                   skip=("step.bind", "step.list", "step.disconnect", "step.add", "step.open")) +
+                 [dict(ob="sweep.step", params=dict(tier=tier, relaxed=True, others=["none", "sub0s0"]), want=["C10."]),
+                  dict(ob="sweep.step", params=dict(tier=tier, relaxed=True, usage="plain", others=["none"]), want=["C10."]),
+                  dict(ob="crash.resume", params=dict(tier=tier), want=["C10."])])
